@@ -278,6 +278,87 @@ theorem C07_window_loop (c : Cfg) (next seq : Nat) (hseq : seq < MOD) :
 example : inWindowL Cfg.gen 65500 91 = true ∧ inWindowL Cfg.gen 65500 92 = false ∧
     inWindowL Cfg.gen 65500 65500 = false ∧ inWindowL Cfg.gen 65500 65501 = true := by decide +kernel
 
+/-- **the window test refuses every number outside the window** (the loop as written, regenerated bounds): a packet is
+    let through exactly when its distance ahead of the expected one, modulo 2^16, is at least `Lo` and less than `Hi`
+    (1 … 127) -/
+theorem C07_window_accepts_iff (next seq : Nat) (hn : next < MOD) (hs : seq < MOD) :
+    inWindowL Cfg.gen next seq = true ↔
+      (Cfg.gen.wlo ≤ (seq + MOD - next) % MOD ∧ (seq + MOD - next) % MOD < Cfg.gen.whi) := by
+  rw [C07_window_loop Cfg.gen next seq hs]
+  have h1 : Cfg.gen.wlo = 1 := by decide
+  have h2 : Cfg.gen.whi = 128 := by decide
+  simp only [inWindow, h1, h2, decide_eq_true_eq] at *
+  omega
+
+/-- … the closed form says the same -/
+theorem C07_window_closed_form_iff (next seq : Nat) (hn : next < MOD) (hs : seq < MOD) :
+    inWindow Cfg.gen next seq = true ↔
+      (Cfg.gen.wlo ≤ (seq + MOD - next) % MOD ∧ (seq + MOD - next) % MOD < Cfg.gen.whi) := by
+  rw [← C07_window_loop Cfg.gen next seq hs]; exact C07_window_accepts_iff next seq hn hs
+
+/-- **packets from the past are refused by the window test**: `behind` = how many packets before the expected one;
+    everything from 1 behind up to 2^16 − Hi behind (where 16-bit aliasing starts: the open finding C07-late-replay) fails
+    the loop -/
+theorem C07_window_refuses_behind (next seq : Nat) (hn : next < MOD) (hs : seq < MOD)
+    (hb : 1 ≤ (next + MOD - seq) % MOD) (hb' : (next + MOD - seq) % MOD ≤ MOD - Cfg.gen.whi) :
+    inWindowL Cfg.gen next seq = false := by
+  have h := C07_window_accepts_iff next seq hn hs
+  have h2 : Cfg.gen.whi = 128 := by decide
+  cases hw : inWindowL Cfg.gen next seq with
+  | false => rfl
+  | true =>
+    exfalso
+    have := h.mp hw
+    simp only [h2] at *
+    omega
+
+/-- … and `InQueue.Append` then returns ErrInvalidSequenceNumber and leaves the queue as it was (nothing parked in
+    `future`, nothing recorded in `acked`), unless the duplicate cache still knows the packet (then it is ignored) -/
+theorem C07_stale_packet_refused (q : InQ) (p : Pkt) (hn : q.next < MOD) (hs : p.seq < MOD) (hna : p.seq ∉ q.acked)
+    (hb : 1 ≤ (q.next + MOD - p.seq) % MOD) (hb' : (q.next + MOD - p.seq) % MOD ≤ MOD - Cfg.gen.whi) :
+    InQ.append Cfg.gen q (some p) = (q, false) := by
+  have hne : p.seq ≠ q.next := by
+    intro h; rw [h] at hb; omega
+  simp [InQ.append, hna, hne, C07_window_refuses_behind q.next p.seq hn hs hb hb']
+
+/-- out of order and not a known duplicate: `Append` parks the packet in the reorder buffer (and records it) exactly when
+    it is 1 … 127 ahead of the expected one, and refuses it, changing nothing, otherwise — so the reorder buffer only ever
+    receives packets of the window ahead -/
+theorem C07_parked_iff_window (q : InQ) (p : Pkt) (hn : q.next < MOD) (hs : p.seq < MOD) (hna : p.seq ∉ q.acked)
+    (hne : p.seq ≠ q.next) :
+    InQ.append Cfg.gen q (some p) =
+      if 1 ≤ (p.seq + MOD - q.next) % MOD ∧ (p.seq + MOD - q.next) % MOD < 128
+      then ({ q with future := q.future ++ [p], acked := q.acked ++ [p.seq] }, true) else (q, false) := by
+  have h1 : Cfg.gen.wlo = 1 := by decide
+  have h2 : Cfg.gen.whi = 128 := by decide
+  have hiff := C07_window_accepts_iff q.next p.seq hn hs
+  rw [h1, h2] at hiff
+  cases hw : inWindowL Cfg.gen q.next p.seq with
+  | true => simp [InQ.append, hna, hne, hw, hiff.mp hw]
+  | false =>
+    have : ¬ (1 ≤ (p.seq + MOD - q.next) % MOD ∧ (p.seq + MOD - q.next) % MOD < 128) := by
+      intro h; rw [hiff.mpr h] at hw; cases hw
+    simp [InQ.append, hna, hne, hw, this]
+
+/-- the comparison `int16(seq − next) ≥ MaxCachedChunks ⇒ refuse` (distance taken as a signed 16-bit number) -/
+def int16AheadAccepts (max next seq : Nat) : Bool :=
+  let d := (seq + MOD - next) % MOD
+  let signed : Int := if d < 32768 then (d : Int) else (d : Int) - 65536
+  decide (signed < (max : Int))
+
+/-- **witness for the signed comparison** (kernel-checked): it bounds only how far AHEAD a packet may be.  The packet
+    200 behind (#800 while #1000 is expected), 129 behind, and 30000 behind pass it, while the loop refuses all three;
+    ahead of the expected packet the two agree on both sides of the window's end. -/
+theorem C07_witness_int16_window :
+    int16AheadAccepts Cfg.gen.max 1000 800 = true ∧ inWindowL Cfg.gen 1000 800 = false ∧
+    int16AheadAccepts Cfg.gen.max 1000 871 = true ∧ inWindowL Cfg.gen 1000 871 = false ∧
+    int16AheadAccepts Cfg.gen.max 100 35636 = true ∧ inWindowL Cfg.gen 100 35636 = false ∧
+    int16AheadAccepts Cfg.gen.max 1000 1127 = true ∧ inWindowL Cfg.gen 1000 1127 = true ∧
+    int16AheadAccepts Cfg.gen.max 1000 1128 = false ∧ inWindowL Cfg.gen 1000 1128 = false := by decide +kernel
+
+example : inWindowL Cfg.gen 5 65413 = false ∧ inWindowL Cfg.gen 5 4 = false ∧ inWindowL Cfg.gen 5 132 = true := by
+  decide +kernel   -- 128 behind, 1 behind: refused; 65409 behind = 127 ahead: aliases into the window (C07-late-replay)
+
 end SA.Queue
 
 namespace SA.DnsExchange
@@ -520,6 +601,12 @@ end SA.DnsWrites
 #print axioms SA.Queue.C07_witness_wrap_stmt
 #print axioms SA.Queue.C07_witness_wrap_cache
 #print axioms SA.Queue.C07_window_loop
+#print axioms SA.Queue.C07_window_accepts_iff
+#print axioms SA.Queue.C07_window_closed_form_iff
+#print axioms SA.Queue.C07_window_refuses_behind
+#print axioms SA.Queue.C07_stale_packet_refused
+#print axioms SA.Queue.C07_parked_iff_window
+#print axioms SA.Queue.C07_witness_int16_window
 #print axioms SA.DnsExchange.C07_loss_absorbed
 #print axioms SA.DnsExchange.C07_witness_loss_not_absorbed
 #print axioms SA.DnsWrites.C07_write_reports_enqueued
